@@ -258,6 +258,13 @@ async fn execute(ch: &Chooser, k: usize, max_writes: usize, path: &str, max_conn
         ($w:expr, $what:expr) => {{
             match tokio::time::timeout(STEP_TIMEOUT, done_rx.recv()).await {
                 Ok(Some((id, r))) if id == $w => r,
+                Ok(Some((id, r))) if inflight.contains(&id) && holder.is_some() => {
+                    obs.problem = Some((
+                        "two-transactions-open".into(),
+                        format!("writer {id}'s begin() returned {r:?} while writer {:?} still holds its transaction (waiting for writer {} step {:?}); trace {:?}", holder, $w, $what, obs.trace),
+                    ));
+                    return obs;
+                }
                 Ok(Some((id, r))) => {
                     obs.problem = Some(("machinery".into(), format!("expected completion of writer {} but writer {id} reported {r:?}", $w)));
                     return obs;
@@ -487,12 +494,30 @@ pub fn run(mut rep: Report) -> i32 {
                     o.problem = Some(("machinery".into(), format!("cannot copy template database: {e}")));
                     return o;
                 }
-                let rt = tokio::runtime::Builder::new_current_thread().enable_all().build().expect("rt");
-                let local = tokio::task::LocalSet::new();
-                let mut obs = local.block_on(&rt, execute(ch, k, max_writes, &path, max_conn));
+                // a panic of the store outside a writer step (settling transaction, final reads,
+                // a dropped in-flight call) is an outcome of this execution, not of the harness
+                let mut obs = match explorer::catch(|| {
+                    let rt = tokio::runtime::Builder::new_current_thread().enable_all().build().expect("rt");
+                    let local = tokio::task::LocalSet::new();
+                    // caught *inside* the runtime: the store's permit spawns a task from its Drop,
+                    // which must not happen while the runtime itself is being unwound
+                    let obs = local.block_on(&rt, catch_async(execute(ch, k, max_writes, &path, max_conn)));
+                    {
+                        // unfinished writer tasks own permits whose Drop spawns: keep a context
+                        let _ctx = rt.enter();
+                        drop(local);
+                    }
+                    drop(rt);
+                    obs
+                }) {
+                    Ok(Ok(o)) => o,
+                    Ok(Err(msg)) | Err(msg) => {
+                        let mut o = Obs::default();
+                        o.problem = Some(("store-panicked".into(), format!("the store panicked while the harness settled or read the database after the explored steps: {msg}")));
+                        o
+                    }
+                };
                 obs.max_conn = max_conn;
-                drop(local);
-                drop(rt);
                 for suffix in ["", "-wal", "-shm", "-journal"] {
                     let _ = std::fs::remove_file(format!("{path}{suffix}"));
                 }
